@@ -69,6 +69,154 @@ def extract_chain(fn):
     return None
 
 
+class CharMap:
+    """an encoder written as a loop over the characters of its argument: image(c) is computed by running the loop body on c"""
+
+    def __init__(self, body, cname, oname, descr):
+        self.body, self.cname, self.oname, self.descr = body, cname, oname, descr
+
+    def image(self, c):
+        return _run_block(self.body, c, self.cname, self.oname)
+
+    def __iter__(self):  # so that `" -> ".join(f"{a!r}=>{b!r}" for a, b in chain)` still prints something useful
+        return iter([("<each char>", self.descr)])
+
+
+class _Unsupported(Exception):
+    pass
+
+
+def _lit_text(e):
+    if e["k"] == "Lit" and e.get("lit") in ("char", "str"):
+        return e["v"]
+    raise _Unsupported()
+
+
+def _cond(e, c, cname):
+    k = e["k"]
+    if k == "Paren":
+        return _cond(e["expr"], c, cname)
+    if k == "Unary" and e.get("op") == "!":
+        return not _cond(e["expr"], c, cname)
+    if k == "Binary" and e["op"] in ("||", "&&"):
+        a = _cond(e["left"], c, cname)
+        if e["op"] == "||":
+            return a or _cond(e["right"], c, cname)
+        return a and _cond(e["right"], c, cname)
+    if k == "Binary" and e["op"] in ("==", "!="):
+        l, r = e["left"], e["right"]
+        for x, y in ((l, r), (r, l)):
+            while x["k"] in ("Unary", "Ref", "Paren") and x.get("op") in (None, "*", "&"):
+                x = x["expr"]
+            if x["k"] == "Path" and x["path"] == cname:
+                v = _lit_text(y) == c
+                return v if e["op"] == "==" else not v
+    raise _Unsupported()
+
+
+def _pat_matches(p, c):
+    k = p["k"]
+    if k in ("PWild", "PIdent"):
+        return True
+    if k == "PLit":
+        return _lit_text(p["lit"]) == c
+    if k == "POr":
+        return any(_pat_matches(x, c) for x in p["cases"])
+    raise _Unsupported()
+
+
+def _run_expr(e, c, cname, oname):
+    k = e["k"]
+    if k == "Block":
+        return _run_block(e, c, cname, oname)
+    if k == "If":
+        if e["cond"]["k"] == "Let":
+            raise _Unsupported()
+        if _cond(e["cond"], c, cname):
+            return _run_block(e["then"], c, cname, oname)
+        return _run_expr(e["else"], c, cname, oname) if e.get("else") is not None else ""
+    if k == "Match":
+        sc = e["scrut"]
+        while sc["k"] in ("Unary", "Ref", "Paren"):
+            sc = sc["expr"]
+        if not (sc["k"] == "Path" and sc["path"] == cname):
+            raise _Unsupported()
+        for arm in e["arms"]:
+            if arm.get("guard") is not None:
+                raise _Unsupported()
+            if _pat_matches(arm["pat"], c):
+                return _run_expr(arm["body"], c, cname, oname)
+        raise _Unsupported()
+    if k == "MethodCall" and e["method"] in ("push", "push_str") and e["recv"]["k"] == "Path" and e["recv"]["path"] == oname and len(e["args"]) == 1:
+        a = e["args"][0]
+        while a["k"] in ("Unary", "Ref", "Paren"):
+            a = a["expr"]
+        if a["k"] == "Path" and a["path"] == cname:
+            return c
+        return _lit_text(a)
+    if k == "Tuple" and not e.get("elems"):
+        return ""
+    raise _Unsupported()
+
+
+def _run_block(b, c, cname, oname):
+    out = ""
+    for st in b["stmts"]:
+        if st["k"] != "ExprStmt":
+            raise _Unsupported()
+        out += _run_expr(st["expr"], c, cname, oname)
+    return out
+
+
+def extract_charloop(fn):
+    """-> (prefix, suffix, CharMap) for `let mut out = String::..; for c in s.chars() { .. out.push(..) .. } out` (optionally wrapped
+    in one format!("<p>{}<s>", out)), the loop body made of if / match on c and pushes of c or of literals; None otherwise"""
+    st = fn.body.get("stmts", [])
+    if len(st) != 3 or len(fn.params) != 1:
+        return None
+    loc, loop, tail = st
+    if loc["k"] != "Local" or loop["k"] != "ExprStmt" or loop["expr"]["k"] != "ForLoop" or tail["k"] != "ExprStmt" or tail.get("semi"):
+        return None
+    pat = loc["pat"]
+    if pat["k"] == "PType":
+        pat = pat["pat"]
+    init = loc.get("init") or {}
+    if pat["k"] != "PIdent" or not (init.get("k") == "Call" and init["func"]["k"] == "Path" and init["func"]["path"].split("::")[-1] in ("new", "with_capacity", "default")):
+        return None
+    oname = pat["name"]
+    lp = loop["expr"]
+    it = lp["iter"]
+    if not (lp["pat"]["k"] == "PIdent" and it["k"] == "MethodCall" and it["method"] == "chars" and it["recv"]["k"] == "Path" and it["recv"]["path"] == fn.params[0]["name"]):
+        return None
+    cname = lp["pat"]["name"]
+    prefix = suffix = ""
+    t = tail["expr"]
+    if t["k"] == "Macro" and t["name"].split("::")[-1] == "format" and t.get("args"):
+        tp = t["args"][0]
+        if not (tp["k"] == "Lit" and tp.get("lit") == "str" and tp["v"].count("{") == 1):
+            return None
+        i, j = tp["v"].index("{"), tp["v"].index("}")
+        name = tp["v"][i + 1: j]
+        arg = t["args"][1] if len(t["args"]) == 2 else {"k": "Path", "path": name}
+        if not (arg["k"] == "Path" and arg["path"] == oname):
+            return None
+        prefix, suffix = tp["v"][:i], tp["v"][j + 1:]
+    elif not (t["k"] == "Path" and t["path"] == oname):
+        return None
+    cm = CharMap(lp["body"], cname, oname, "loop body")
+    try:
+        imgs = {c: cm.image(c) for c in THOROUGH_ALPHABET}
+    except _Unsupported:
+        return None
+    cm.descr = ", ".join(f"{c!r}=>{v!r}" for c, v in sorted(imgs.items()) if v != c) or "identity"
+    return prefix, suffix, cm
+
+
+def extract_encoder(fn):
+    """a replace chain or a per-character loop"""
+    return extract_chain(fn) or extract_charloop(fn)
+
+
 def find_encoders(repo, mod):
     """the string-constant encoders of a module, found by SHAPE (a function String <- &str whose body is `format!("\"{}\"", <replace
     chain>)`), whatever they are called"""
@@ -76,13 +224,15 @@ def find_encoders(repo, mod):
     for fn in repo.fns_in(mod):
         if len(fn.params) != 1:
             continue
-        ch = extract_chain(fn)
+        ch = extract_encoder(fn)
         if ch is not None and ch[0] == '"' and ch[1] == '"' and ch[2]:
             out.append(fn)
     return out
 
 
 def encode_char(chain, c):
+    if isinstance(chain, CharMap):
+        return chain.image(c)
     s = c
     for a, b in chain:
         s = s.replace(a, b)
